@@ -372,7 +372,6 @@ def cmd_run(prop, tier):
                 infra.append("bad stats file %s: %s" % (st_path, e))
         if part.get("kind") == "fuzz" and cfg.get("fuzztime"):
             # the coordinator's progress lines are the evidence of a native fuzzing campaign
-            import re
             execs = [int(x) for x in re.findall(r"execs: (\d+)", out)]
             inter = [int(x) for x in re.findall(r"new interesting: \d+ \(total: (\d+)\)", out)]
             m = merged.setdefault(test, {"evaluations": 0, "nontrivial_evaluations": 0, "nt": set(), "labels": {}, "samples": [],
@@ -557,4 +556,13 @@ def main(argv):
 
 
 if __name__ == "__main__":
-    sys.exit(main(sys.argv))
+    try:
+        rc = main(sys.argv)
+    except SystemExit:
+        raise
+    except BaseException:  # noqa: BLE001 - a bug in the driver is an infrastructure problem, never a violation
+        import traceback
+        traceback.print_exc()
+        print("INFRA: the driver itself failed (exit 2)")
+        rc = 2
+    sys.exit(rc)
